@@ -45,7 +45,17 @@ THEOREMS = [
     "HedVerif.C13.refuse_unpartnered",
     "HedVerif.C13.load_two_ok",
     "HedVerif.C13.refuse_shared_name",
+    "HedVerif.C13.canonG_eq_view",
+    "HedVerif.C13.unloaded_prefix_invalid",
+    "HedVerif.C13.lookup_issues_per_tag",
+    "HedVerif.C13.group_validate_eq_single",
+    "HedVerif.C13.countPrefix_zero_of_separated",
+    "HedVerif.C13.group_validate_eq_single_alpha",
+    "HedVerif.C13.generation_counterexample",
+    "HedVerif.C13.section_conservative",
+    "HedVerif.C13.section_refuse_shared",
 ]
+SIG_GEN = "C13-mixed-generation-char-rules"
 STANDARDS = ["8.0.0", "8.1.0", "8.2.0", "8.3.0"]
 LIBRARIES = ["score_1.0.0", "score_1.1.0", "score_2.0.0", "testlib_1.0.2", "testlib_2.0.0", "testlib_2.1.0", "testlib_3.0.0"]
 BUDGET = {"quick": 600, "thorough": 3000}
@@ -504,6 +514,20 @@ def case_collision(ctx, hed):
             ctx.violation("case-colliding-prefixes-accepted", {"group": [list(x) for x in members], "prefix": p, "items": items}, cg)
 
 
+def generation_probe(ctx, hed):
+    """fixed witness: one character-rule flag for the whole group (any member >= 8.3.0 switches it on)"""
+    HedString, HedTag, load_schema_version, GroupValidator = hed
+    members, p, items = [("", "8.3.0"), ("sc:", "score_1.1.0")], "sc:", [["t", "Label/\u00e9"]]
+    group = load_group(load_schema_version, members)
+    alone = load_schema_version("score_1.1.0")
+    cg, ca = codes_of(HedString, render(items, p), group), codes_of(HedString, render(items, ""), alone)
+    ctx.case(("generation-probe",), nontrivial=True)
+    if cg != ca:
+        ok = explained_by_generation(cg, ca, render(items, ""), group.schema_83_props, alone.schema_83_props)
+        ctx.violation("prefixed-in-group != unprefixed-alone", {"group": [list(x) for x in members], "prefix": p, "items": items},
+                      {"group": cg, "alone": ca}, signature=SIG_GEN if ok else None)
+
+
 def capitalisation_probe(ctx, hed):
     """fixed witnesses: the style check reads the tag text with its namespace"""
     HedString, HedTag, load_schema_version, GroupValidator = hed
@@ -518,6 +542,175 @@ def capitalisation_probe(ctx, hed):
             sig = SIG_CAP if explained_by_capitalisation(HedString, t_pre, group, cg, ca) else None
             ctx.violation("prefixed-in-group != unprefixed-alone", {"group": [list(x) for x in members], "prefix": p, "items": items},
                           {"text": t_pre, "group": cg, "alone": ca}, signature=sig)
+
+
+# ------------------------------------------------------------------------------------ full issue lists (C01's model)
+
+_C01V = {}
+
+
+def c01_vocab(name):
+    from harness.props import c01
+    from hed.schema.hed_schema_entry import pluralize
+    if name not in _C01V:
+        _C01V[name] = c01.Vocab(name, pluralize.plural)
+    return _C01V[name]
+
+
+def prefix_tags(text, p):
+    """insert p before every tag (maximal run between the delimiters ( ) , trimmed of blanks)"""
+    out, i, n = [], 0, len(text)
+    while i < n:
+        if text[i] in "(),":
+            out.append(text[i])
+            i += 1
+            continue
+        j = i
+        while j < n and text[j] not in "(),":
+            j += 1
+        run = text[i:j]
+        k = len(run) - len(run.lstrip(" "))
+        out.append(run[:k] + (p if run.strip(" ") else "") + run[k:])
+        i = j
+    return "".join(out)
+
+
+def member_meta(v):
+    from harness.props.c01 import version_tuple
+    hdr = v.raw["header"]
+    ws = hdr.get("withStandard")
+    return {"ws83": (version_tuple(ws) >= (8, 3, 0)) if ws else None,
+            "std83": (version_tuple(hdr.get("version", "0")) >= (8, 3, 0)) if not hdr.get("library") else None,
+            "ed": "elementDomain" in {p["name"] for p in v.raw["properties"]}}
+
+
+STRING_PHASE_CODES = {"CHARACTER_INVALID", "PARENTHESES_MISMATCH", "TAG_EMPTY", "COMMA_MISSING", "TILDES_UNSUPPORTED",
+                      "NODE_NAME_EMPTY"}
+
+
+def explained_by_generation(cg, ca, text, group_modern, alone_modern):
+    """group and member disagree on the character rules, the text has characters the two rule sets judge differently
+    (printable non-ASCII: refused before 8.3.0 only; non-printable ASCII: refused from 8.3.0 only), and the side whose
+    rules refuse them stopped in the string phase reporting (at least) those characters, while the other side went on"""
+    if bool(group_modern) == bool(alone_modern):
+        return False
+    n_old = sum(1 for c in text if ord(c) > 127 and c.isprintable())
+    n_new = sum(1 for c in text if ord(c) <= 127 and not c.isprintable())
+    old = [tuple(x) for x in (ca if group_modern else cg)]
+    new = [tuple(x) for x in (cg if group_modern else ca)]
+
+    def stopped(side, n):
+        return n > 0 and side.count(("CHARACTER_INVALID", 1)) >= n and all(c in STRING_PHASE_CODES for c, _ in side)
+    return stopped(old, n_old) or stopped(new, n_new)
+
+
+def run_group_validate(ctx, members, n_each, hed):
+    """complete issue lists: HedString(text, GROUP).validate() against GroupValidate.validate (the C01 model composed with
+    the group dispatch); texts from C01's generators over each member's vocabulary, every tag prefixed"""
+    from harness.props import c01
+    from hed.schema.hed_schema_entry import pluralize
+    HedString, HedTag, load_schema_version, GroupValidator = hed
+    c01.install_recorder()
+    rng = ctx.rng
+    label = "+".join(f"{p}{s}" for p, s in members)
+    group = load_group(load_schema_version, members)
+    cases = []
+    kinds = [k for k in c01.SPEC if "def" not in k.lower() and "onset" not in k.lower()]
+    for p, name in members:
+        v = c01_vocab(name)
+        g = c01.Gen(rng, v, pluralize.plural)
+        texts = []
+        for k in range(n_each):
+            ph = rng.random() < 0.3
+            r = k % 4
+            if r == 0:
+                t = g.render(g.conforming(ph))
+            elif r in (1, 2):
+                t = g.inject(kinds[(k // 4) % len(kinds)], g.conforming(ph), ph) or g.render(g.conforming(ph))
+            else:
+                t = c01.fuzz_strings(rng, g, 1)[0]
+            texts.append((t, ph, r != 3))
+        for t, ph, structured in texts:
+            tp = prefix_tags(t, p)
+            if rng.random() < 0.08:           # one tag under a prefix that is not loaded
+                tp = tp.replace(p, rng.choice(["zz:", "Q1:", p.upper() if p.upper() != p else "yy:"]), 1) if p else "zz:" + tp
+            cases.append((p, name, t, tp, ph, structured))
+    chars = sorted({c for c5 in cases for c in c5[3] if ord(c) > 127})
+    if [c for c in chars if c.casefold() != c or c.isdigit()]:
+        raise RuntimeError("alphabet holds characters outside the model's assumptions")
+    mm = []
+    for p, name in members:
+        v = c01_vocab(name)
+        mm.append(dict(v.payload(chars), **c01.detect_variant(), ns=p, **member_meta(v)))
+    ans = ctx.model.batch([{"op": "c13.validate", "members": mm,
+                            "cases": [{"text": c[3], "ph": c[4]} for c in cases]}])[0]
+    if "bad-op" in ans:
+        raise RuntimeError("driver: " + str(ans["bad-op"]))
+    alone = {name: load_schema_version(name) for _, name in members}
+    if ans["group_modern"] != bool(group.schema_83_props):
+        ctx.disagree("groupModern = group.schema_83_props", {"group": [list(m) for m in members]}, ans["group_modern"], group.schema_83_props)
+    for (p, name), am in zip(members, ans["alone_modern"]):
+        if am != bool(alone[name].schema_83_props) or am != c01_vocab(name).modern:
+            ctx.disagree("aloneModern = schema.schema_83_props", {"schema": name}, am, alone[name].schema_83_props)
+    ctx.count(f"gv:{label}:group_modern={ans['group_modern']},members={ans['alone_modern']}")
+    for (p, name, t, tp, ph, structured), m in zip(cases, ans["answers"]):
+        case = {"gv_group": [list(x) for x in members], "text": tp, "ph": ph}
+        impl, exc = c01.impl_validate(HedString, group, tp, ph)
+        ctx.case((label, tp, ph), nontrivial=True, sample=case if rng.random() < 0.002 else None)
+        ctx.count("gv:cases")
+        if m.get("mixed"):
+            ctx.count("gv:skipped-two-loaded-prefixes")
+            continue
+        if m["unmodelled"]:
+            ctx.count("gv:skipped-unmodelled")
+            continue
+        if exc is not None or m["raises"]:
+            ctx.count("gv:skipped-raises")
+            if exc is not None and not m["raises"]:
+                ctx.disagree("GroupValidate.raises = the validator raises", case, False, exc)
+            continue
+        mine = sorted((c01.canon_model(i) for i in m["issues"]), key=json.dumps)
+        # Model/Validate.lean (C01's, shared) still applies the capitalisation rule to the text WITH its namespace
+        # (the code before fix de26284); until `styleIssues` drops `t.ns`, style warnings on prefixed tags are left out
+        # of this comparison on both sides (the rule for prefixed tags is checked by the relational oracle, SIG_CAP)
+        def prefixed_style(x):
+            return x[1] == "STYLE_WARNING" and x[3] is not None and ":" in tp[x[3][0]:x[3][1]].split("/")[0]
+        n0, impl0 = len(mine) + len(impl), impl
+        mine, impl = [x for x in mine if not prefixed_style(x)], [x for x in impl if not prefixed_style(x)]
+        if len(mine) + len(impl) != n0:
+            ctx.count("gv:style-warnings-on-prefixed-tags-left-out")
+        ctx.count("gv:compared")
+        ctx.count("gv:theorem-hypotheses-" + ("hold" if m["hmod"] and m["hreq"] else "fail(mixed generation)" if not m["hmod"] else "fail"))
+        if m["hmod"] and m["hreq"] and not m["eq_single"]:
+            ctx.count("gv:eq_single-false-under-hmod-hreq(unique separation)")
+        if any(i["kind"] == "HED_LIBRARY_UNMATCHED" for i in m["issues"]):
+            ctx.count("gv:unloaded-prefix-reported")
+        if mine != impl:
+            ctx.disagree("GroupValidate.validate = HedString(text, group).validate (complete issue list)", case,
+                         [x for x in mine if x not in impl][:6], [x for x in impl if x not in mine][:6])
+        # relational oracle on the implementation, full canonical issues modulo the shift of positions: codes only
+        # (fuzz strings are left out: prefixing a blank-only tag such as U+00A0 makes it a non-empty tag)
+        if structured and tp == prefix_tags(t, p):
+            cg = sorted((i[1], i[2]) for i in impl0)
+            ia, ea = c01.impl_validate(HedString, alone[name], t, ph)
+            if ea is None:
+                ca = sorted((i[1], i[2]) for i in ia)
+                if cg != ca:
+                    sig = SIG_GEN if explained_by_generation(cg, ca, t, group.schema_83_props, alone[name].schema_83_props) else (
+                        SIG_CAP if p and explained_by_capitalisation(HedString, tp, group, cg, ca) else None)
+                    ctx.violation("prefixed-in-group != unprefixed-alone" if p else "unprefixed-in-group != alone",
+                                  {"group": [list(x) for x in members], "prefix": p, "text": t, "ph": ph},
+                                  {"group": cg, "alone": ca}, signature=sig)
+    ctx.check_time()
+
+
+GV_GROUPS = [
+    [("", "8.3.0"), ("sc:", "score_2.0.0")],
+    [("", "8.2.0"), ("sc:", "score_1.1.0")],
+    [("tl:", "testlib_3.0.0"), ("", "8.3.0")],
+    [("a:", "8.3.0"), ("sc:", "score_1.1.0"), ("tl:", "testlib_2.0.0")],
+    [("sc:", "score_2.0.0"), ("", "testlib_3.0.0")],
+]
 
 
 # ------------------------------------------------------------------------------------ version lists
@@ -868,7 +1061,12 @@ def run(ctx):
         synthetic_required(ctx, hed, from_string, HedSchemaGroup)
         case_collision(ctx, hed)
         capitalisation_probe(ctx, hed)
+        generation_probe(ctx, hed)
         groups = QUICK_GROUPS + (MORE_GROUPS if not ctx.quick() else MORE_GROUPS[:1])
+        for k, members in enumerate(GV_GROUPS):
+            if ctx.quick() and k >= 3 + (ctx.seed % 2):
+                break
+            run_group_validate(ctx, members, (200 if ctx.quick() else 1500), hed)
         for members in groups:
             full = members in QUICK_GROUPS
             if ctx.quick():
@@ -886,6 +1084,20 @@ def replay(ctx, rec):
     case = rec.get("case") or (rec.get("disagreements") or [{}])[0].get("case")
     if not case:
         print("nothing to replay (obligation-only record):", rec.get("broken_obligations"))
+        return
+    if "gv_group" in case:
+        from harness.props import c01
+        c01.install_recorder()
+        members = [tuple(x) for x in case["gv_group"]]
+        group = load_group(load_schema_version, members)
+        chars = sorted({c for c in case["text"] if ord(c) > 127})
+        mm = [dict(c01_vocab(n).payload(chars), **c01.detect_variant(), ns=p, **member_meta(c01_vocab(n))) for p, n in members]
+        m = ctx.model.batch([{"op": "c13.validate", "members": mm, "cases": [{"text": case["text"], "ph": case["ph"]}]}])[0]["answers"][0]
+        impl, exc = c01.impl_validate(HedString, group, case["text"], case["ph"])
+        mine = sorted((c01.canon_model(i) for i in m.get("issues", [])), key=json.dumps)
+        print("model:", json.dumps(mine), "\nimpl: ", json.dumps(impl), exc)
+        if not m.get("mixed") and exc is None and mine != impl:
+            ctx.disagree("GroupValidate.validate = HedString(text, group).validate (complete issue list)", case, mine, impl)
         return
     if "load_versions" in case:
         vs = case["load_versions"]
@@ -913,7 +1125,8 @@ def replay(ctx, rec):
         print("text:", render(case["items"], p), "\ngroup:", cg, "\nalone:", ca)
         if cg != ca:
             sig = SIG_CASE if len({q.casefold() for q, _ in members}) < len(members) and only_extra_not_unique(cg, ca) else (
-                SIG_CAP if p and explained_by_capitalisation(HedString, render(case["items"], p), group, cg, ca) else None)
+                SIG_CAP if p and explained_by_capitalisation(HedString, render(case["items"], p), group, cg, ca) else (
+                    SIG_GEN if explained_by_generation(cg, ca, render(case["items"], ""), group.schema_83_props, alone.schema_83_props) else None))
             ctx.violation("prefixed-in-group != unprefixed-alone", case, {"group": cg, "alone": ca}, signature=sig)
         return
     if "group" in case and "text" in case:
